@@ -13,14 +13,14 @@ import (
 )
 
 
-var keys = []string{"l1", "l2", "L1", "str"}
+var keys = []string{"l1", "l2", "L1", "vol", "str"} // vol: a list with a deadline; str: a string
 var elems = []string{"a", "b", "a", "c", "", "x\r\ny"}
 
 func key(t *rapid.T) string {
 	if rapid.IntRange(0, 11).Draw(t, "kk") == 0 {
 		return "str"
 	}
-	return rapid.SampledFrom(keys[:3]).Draw(t, "lkey")
+	return rapid.SampledFrom(keys[:4]).Draw(t, "lkey")
 }
 func elem(t *rapid.T) string {
 	if rapid.IntRange(0, 19).Draw(t, "ek") == 0 {
@@ -123,7 +123,7 @@ func genOp(t *rapid.T, approx map[string]int) kit.Cmd {
 func GenProgram(t *rapid.T) prog.Program {
 	p := prog.Program{ShardNum: rapid.SampledFrom([]int{1, 16}).Draw(t, "shards")}
 	if rapid.IntRange(0, 2).Draw(t, "prologue") > 0 {
-		p.Ops = append(p.Ops, kit.MkCmd("SET", "str", "v"))
+		p.Ops = append(p.Ops, kit.MkCmd("SET", "str", "v"), kit.MkCmd("RPUSH", "vol", "a", "b"), kit.MkCmd("EXPIRE", "vol", "5000"))
 	}
 	approx := map[string]int{}
 	if rapid.IntRange(0, 1).Draw(t, "seed") == 0 {
